@@ -171,9 +171,6 @@ static int expectValid(unsigned msgType, unsigned ptype, const uint8_t* p, unsig
     return 1;  // unknown payload kinds are carried as generic payloads
 }
 
-#ifndef HIST
-#define HIST 0
-#endif
 VP_HARNESS(h_dec_wire)
 {
     static uint8_t frame[FULLSZ + PADZ + 1];
@@ -204,25 +201,6 @@ VP_HARNESS(h_dec_wire)
     for (unsigned i = 0; i < NTOT; ++i)
         buf[i] = frame[i];
     Decoder* d = new Decoder;
-#if HIST
-    // "on a decoder with any history": an earlier frame on the same decoder - HIST 1: an open (first) segment on the same
-    // endpoint, 2: an open segment on another endpoint, 3: a complete unsegmented message on the same endpoint
-    {
-        const unsigned hn = 8 + 16 + 8;
-        uint8_t* hb = static_cast<uint8_t*>(operator new(hn));
-        vp_bytes(hb, hn);
-        hb[0] = VER;
-        hb[2] = frame[2];
-        hb[3] = frame[3];
-        hb[5] = HIST == 2 ? static_cast<uint8_t>(frame[5] ^ 1) : frame[5];
-        hb[8 + 12] = static_cast<uint8_t>((hb[8 + 12] & 0xB3) | (HIST == 3 ? 0x00 : 0x04));
-        vp_assume(hb[8 + 13] != 0);
-        vp_put16(hb + 8 + 14, 8);
-        Packets* hp = new Packets(d->decode(hb, hn));
-        vp_assert(hp->size() == (HIST == 3 ? 1u : 0u), "C04: the earlier frame yields its own packet (complete message) or none (open segment)");
-        operator delete(hb);
-    }
-#endif
     Packets* ps = new Packets(d->decode(buf, NTOT));
     vp_assert(ps->size() == expect, "C04: one packet per message that is completely contained in the frame, none for padding");
     const unsigned msgType = frame[4];
